@@ -260,6 +260,8 @@ def install(eng):
                           z3.ForAll([i], z3.Implies(z3.And(0 <= i, i < n), el(i) <= mx if is_max else el(i) >= mx))), why="max/min of a sequence")
         return wrap(mx, t.np, t.dtype)
 
+    eng.seq_extreme = _seq_extreme
+
     def py_abs(v):
         return abs(v)
 
